@@ -55,6 +55,12 @@ THEOREMS = [
     "AiuVerif.C19.drain_bounds",
     "AiuVerif.C19.collect_guards",
     "AiuVerif.C19.analyze_partitions_time",
+    "AiuVerif.C19.analyze_bounds",
+    "AiuVerif.C19.drain_reports",
+    # the excluded branches, proved on concrete witnesses
+    "AiuVerif.C19.split_zero_length_period",
+    "AiuVerif.C19.bounds_fail_negative_power",
+    "AiuVerif.C19.ts_zero_is_ignored",
 ]
 RULE = ("ops merge/msplit/split/stats/pipe. Exhaustive: all kernel families of <=3 intervals with endpoints 0..4 "
         "(merge), all power periods in 0..4 x kernel families of <=2 (quick) / <=3 (thorough) intervals over 0..5 "
@@ -517,7 +523,7 @@ def rand_time(rng, hi, g):
 
 def gen_random(ctx: Ctx):
     rng = ctx.rng
-    for _ in range(ctx.n(700, 12000)):
+    for _ in range(ctx.n(4000, 30000)):
         g = rng.choice([1, 1, 2, 4])
         hi = rng.choice([6, 12, 40])
         n = rng.randint(0, 14)
@@ -563,7 +569,7 @@ def gen_random(ctx: Ctx):
                     e = dict(pev(t, Q(7)), dur=S(3))
                 evs.insert(rng.randint(0, len(evs)), e)
         yield {"op": "pipe", "events": evs}
-    for _ in range(ctx.n(300, 6000)):
+    for _ in range(ctx.n(1500, 12000)):
         g = rng.choice([1, 2, 4])
         hi = rng.choice([6, 20])
         fam = []
